@@ -454,6 +454,7 @@ func (reg *Reg) blobPutUploadChunked(ctx context.Context, r ref.Ref, d descripto
 	retryLimit := 10 // TODO: pull limit from reghttp
 	retryCur := 0
 	stallCur := 0
+	progressMax := int64(0) // highest offset the registry has acknowledged so far
 	var err error
 
 	for !finalChunk || chunkStart < bufStart+int64(len(bufBytes)) {
@@ -554,14 +555,16 @@ func (reg *Reg) blobPutUploadChunked(ctx context.Context, r ref.Ref, d descripto
 			}
 			rangeEnd, err := blobUploadCurBytes(httpResp)
 			if err == nil {
-				if resp.HTTPResponse().StatusCode == 202 && rangeEnd+1 <= chunkStart {
-					// the chunk was accepted but the upload did not advance, do not resend it forever
+				if rangeEnd+1 > progressMax {
+					progressMax = rangeEnd + 1
+					stallCur = 0
+				} else {
+					// whatever the status, the upload did not get beyond what was already reached,
+					// do not resend chunks forever
 					stallCur++
 					if stallCur > retryLimit {
 						return d, fmt.Errorf("failed to send blob (chunk), ref %s: upload is not making progress, range end %d", r.CommonName(), rangeEnd)
 					}
-				} else {
-					stallCur = 0
 				}
 				chunkStart = rangeEnd + 1
 			} else {
